@@ -197,6 +197,10 @@ def _pure(e):
         return _pure(e.left) and all(_pure(c) for c in e.comparators)
     if isinstance(e, ast.Tuple):
         return all(_pure(x) for x in e.elts)
+    if isinstance(e, ast.BoolOp):
+        return all(_pure(x) for x in e.values)
+    if isinstance(e, ast.IfExp):
+        return _pure(e.test) and _pure(e.body) and _pure(e.orelse)
     if isinstance(e, ast.Call):
         return dotted(e.func) in _PURE_CALLS and not e.keywords and all(_pure(a) for a in e.args)
     return False
@@ -235,18 +239,15 @@ def propagate_locals(fn):
             if isinstance(n, ast.Name):
                 (stores if isinstance(n.ctx, (ast.Store, ast.Del)) else loads).setdefault(n.id, []).append(n)
         params = {a.arg for a in fn.args.args + fn.args.kwonlyargs + fn.args.posonlyargs}
-        for name, st in stores.items():
-            if len(st) != 1 or name in params or name in comp_bound:
+        cands = []
+        for name, sts in stores.items():
+            if name in params or name in comp_bound:
                 continue
-            tgt = st[0]
+            for tgt in sts:
+                cands.append((name, tgt))
+        for name, tgt in cands:
             asg = parents.get(tgt)
             if not (isinstance(asg, ast.Assign) and len(asg.targets) == 1 and asg.targets[0] is tgt):
-                continue
-            single_use = len(loads.get(name, [])) == 1 and not any(
-                isinstance(x, (ast.Yield, ast.YieldFrom, ast.Await, ast.NamedExpr)) for x in ast.walk(asg.value))
-            if not (_pure(asg.value) or single_use):
-                continue
-            if isinstance(asg.value, (ast.Constant,)) and not loads.get(name):
                 continue
             holder = parents.get(asg)
             body = None
@@ -260,8 +261,32 @@ def propagate_locals(fn):
             later = set()
             for s in body[idx + 1:]:
                 later |= {id(x) for x in ast.walk(s)}
-            uses = loads.get(name, [])
-            if not uses or not all(id(u) in later for u in uses):
+            # the definition must be the only one that reaches its uses: no other store in the rest of the block, and no
+            # load after the block (which could see this definition through a merge)
+            if any(id(o) in later for o in stores[name] if o is not tgt):
+                continue
+            uses = [u for u in loads.get(name, []) if id(u) in later]
+            block_end = max((getattr(x, "end_lineno", None) or getattr(x, "lineno", 0)) for x in body)
+            if any(id(u) not in later and getattr(u, "lineno", 0) > block_end for u in loads.get(name, [])):
+                continue
+            if any(id(u) not in later and asg.lineno < getattr(u, "lineno", 0) <= block_end for u in loads.get(name, [])):
+                continue
+            # inside a loop a later iteration could read the value before this assignment runs again
+            in_loop = False
+            q = holder
+            while q is not None and q is not fn:
+                if isinstance(q, (ast.For, ast.While, ast.AsyncFor)):
+                    in_loop = True
+                q = parents.get(q)
+            if in_loop and any(id(u) not in later for u in loads.get(name, [])):
+                continue
+            single_use = len(uses) == 1 and not any(
+                isinstance(x, (ast.Yield, ast.YieldFrom, ast.Await, ast.NamedExpr)) for x in ast.walk(asg.value))
+            if not (_pure(asg.value) or single_use):
+                continue
+            if isinstance(asg.value, (ast.Constant,)) and not uses:
+                continue
+            if not uses:
                 continue
             last = max(getattr(u, "lineno", 0) for u in uses)
             rhs_names = {x.id for x in ast.walk(asg.value) if isinstance(x, ast.Name)}
